@@ -135,14 +135,35 @@ def _init_worker(modname):
         _MOD.worker_init()
 
 
+class HangDetected(BaseException):
+    """raised by the per-case real-time alarm; BaseException so that no 'except Exception' of the library swallows it"""
+
+
+def _alarm(signum, frame):
+    raise HangDetected()
+
+
 def _work(chunk):
+    import signal
     out = []
+    limit = float(getattr(_MOD, 'CASE_TIMEOUT', 30.0))    # real seconds; the clock of the client is virtual, so a case takes milliseconds
+    signal.signal(signal.SIGALRM, _alarm)
     for cj in chunk:
         c = Case.from_json(cj)
         try:
-            r = _MOD.impl(c)
+            signal.setitimer(signal.ITIMER_REAL, limit)
+            try:
+                r = _MOD.impl(c)
+            finally:
+                signal.setitimer(signal.ITIMER_REAL, 0)
+        except HangDetected:
+            r = ['HANG', int(limit)]
+            limit = min(limit, 3.0)      # one hang is already a violation: do not spend the full limit on each further case of this worker
         except BaseException as e:  # the impl runner itself must never raise: report as a harness error
             r = ['HARNESS-ERROR', type(e).__name__, str(e)[:200]]
+        if r and r[0] == 'HANG':
+            out.append((r, ('hang', 'the call did not return or raise within %s s of real time (the client clock is virtual: nothing waits)' % r[1])))
+            continue
         try:
             o = _MOD.oracle(c, r) if not (r and r[0] == 'HARNESS-ERROR') else None
         except BaseException as e:
